@@ -69,7 +69,21 @@ Fixed(w) == {B(Pat(w)), B(Bytes("00", w)), B(Bytes("ff", w)), B(Bytes("7f", w)),
              B(Pat(w - 1)), B(Pat(w + 1)), B(""), Pre(Pat(w)),
              Bad("odd", 2 * w - 1), Bad("odd", 2 * w + 1), Bad("nonhex", 2 * w), Bad("nonhex", 2)}
 Blob == {B(""), B("00"), B("0003aabbcc"), B(Bytes("ee", 33)), Pre("aabb"), Bad("odd", 3), Bad("nonhex", 4)}
-Modules == {TokenBridge, B("436f7265"), B(""), B("41"), Text32, B(Bytes("41", 33)), B(Bytes("41", 64))}
+Text31 == B("4d" \o Bytes("6f", 29) \o "64")
+TB == TokenBridge.hex                                             \* 11 bytes
+\* The module name is the request's byte string AS GIVEN: surrounding blanks (20), tabs (09), newlines (0a) and NULs
+\* (00) are bytes of the name like any other.  Lengths 0, 1, 31, 32, 33, 64 from plain characters, and names whose
+\* raw length exceeds 32 only because of such surroundings (trimmed length <= 32 < raw length), or is exactly 32 with them.
+PlainModules == {TokenBridge, B("436f7265"), B(""), B("41"), Text31, Text32, B(Bytes("41", 33)), B(Bytes("41", 64))}
+WsModules ==
+    {B(TB \o Bytes("20", 21)), B(Bytes("20", 21) \o TB), B(Bytes("20", 10) \o TB \o Bytes("20", 11)),        \* 32 raw
+     B(TB \o Bytes("20", 22)), B(Bytes("20", 22) \o TB), B(Bytes("20", 11) \o TB \o Bytes("20", 11)),        \* 33 raw, 11 trimmed
+     B(Text31.hex \o "0a"), B("09" \o Text31.hex),                                                         \* 32 raw, 31 trimmed
+     B(Text32.hex \o "0a"), B("20" \o Text32.hex), B("09" \o Text31.hex \o "0a"), B(Text32.hex \o "0d0a"),      \* 33 / 34 raw, <= 32 trimmed
+     B(TB \o "0a"), B("20" \o TB), B(TB \o "00"), B("00" \o TB), B(TB \o Bytes("00", 22)), B(Bytes("00", 22) \o TB),
+     B(Bytes("20", 26) \o TB \o Bytes("0a", 27)),                                                          \* 64 raw
+     B("20"), B("0a"), B(Bytes("20", 31)), B(Bytes("20", 32)), B(Bytes("20", 33)), B(Bytes("09", 64))}       \* nothing but whitespace
+Modules == PlainModules \cup WsModules
 Guardians == {Keys(0), Keys(1), Keys(2), Keys(19), Keys(20), Keys(255), Keys(256),
               <<Key(1), Key(1)>>, <<Key(1), Pre(Key(2).hex)>>, <<Key(1), Bad("nonhex", 40)>>, <<Key(1), Bad("odd", 39)>>,
               <<Key(1), B(Pat(19))>>, <<Key(1), B(Pat(21))>>, <<Key(1), B(Pat(32))>>}
